@@ -33,6 +33,9 @@ def to_int(x, scale):
     return int(round(v))
 
 
+from harness.workers.regions_worker import build_array  # noqa: E402  (same array builder for both checks)
+
+
 def run_merge_job(j):
     """direct drive of the compiled _merge_regions with a sequence of merge(lower, upper) calls"""
     m = j["m"]
@@ -55,13 +58,24 @@ def run_job(j):
     H, W = j["H"], j["W"]
     vscale = j.get("vscale", 1)
     dtype = j.get("dtype", "int64")
-    values = (np.array(j["raw"], dtype=np.float64) / vscale).astype(dtype)
+    valmap = j.get("valmap")
+    layout = j.get("layout")
+    if valmap:
+        # the cell values are valmap[str(code)] (extreme values of the dtype); TLC only sees the codes
+        values = build_array(j["raw"], dtype, valmap, layout, nan_code=None)
+        back = {}
+        for code, sv in valmap.items():
+            back[np.dtype(dtype).type(float(sv) if np.dtype(dtype).kind == "f" else int(sv)).item()] = int(code)
+    else:
+        values = build_array(j["raw"], dtype, {str(v): repr(v / vscale) if np.dtype(dtype).kind == "f" else str(v // vscale)
+                                               for row in j["raw"] for v in row}, layout, nan_code=None)
+        back = None
     raster = xr.DataArray(values, dims=["y", "x"])
     m = j.get("mask")
     mask_np = None
     mask_da = None
     if m is not None:
-        mask_np = np.array(m).astype(j.get("mdtype", "bool"))
+        mask_np = build_array(m, j.get("mdtype", "bool"), None, layout, nan_code=None)
         mask_da = xr.DataArray(mask_np, dims=["y", "x"])
     tr = j.get("tr")
     tden = j.get("tden", 1)
@@ -85,7 +99,11 @@ def run_job(j):
                 if ring.ndim != 2 or ring.shape[1] != 2:
                     raise RuntimeError("ring %d of polygon %d has shape %s" % (len(rings), k, ring.shape))
                 rings.append([[to_int(p[0], tden), to_int(p[1], tden)] for p in ring])
-            out.append({"val": to_int(col[k], vscale), "rings": rings})
+            if back is not None:
+                cv = col[k].item() if hasattr(col[k], "item") else col[k]
+                out.append({"val": back.get(cv, BAD), "rings": rings})
+            else:
+                out.append({"val": to_int(col[k], vscale), "rings": rings})
         case["polys"] = out
         regs = []
         if j.get("regs"):
@@ -111,7 +129,7 @@ def signature(j):
     if "merge_seq" in j:
         return ("merge",)
     return (j.get("dtype", "int64"), j.get("mdtype", "bool") if j.get("mask") is not None else None,
-            j.get("tr") is not None, bool(j.get("regs")))
+            j.get("tr") is not None, bool(j.get("regs")), j.get("layout") or "C", bool(j.get("valmap")))
 
 
 def _child(jobs, start, conn):
